@@ -21,6 +21,8 @@ def scenarios(rng, tier):
                 dst = B if rng.random() < 0.75 else rng.choice([mac(77), BCAST, A])
                 descs.append((rng.choice([0, 1]), rng.choice([0, 1, 20]), rng.choice([A, mac(1000 + 10 * rnd + j), mac(2000 + j)]) if rng.random() < 0.8 else A, dst))
             if rng.random() < 0.4: s.frame(1, probe(mac(500), B, mac(500), B))          # unrelated observation at B
+            if rng.random() < 0.3: s.frame(1, reset(mac(rng.choice([1, 9])), tos=1))       # a quick-discovery Reset seen by B: the observation log must not care
+            if rng.random() < 0.15: s.frame(1, hello(mac(9), tos=1))
             s.frame(0, emit(M, A, descs, seq=rng.randrange(1, 65536)))
             s.op('relay 0 1', rng.choice(['00', 'ff']))
             if rng.random() < 0.4: s.frame(1, hello(mac(9)))
